@@ -15,6 +15,7 @@ def run(lines, out, args):
     from zope.interface.interface import InterfaceClass
     from zope.interface.adapter import AdapterRegistry, VerifyingAdapterRegistry
     twin = "twin" in args
+    stale = "stale" in args
     st = {}
     default = object()
     serial = [0]
@@ -82,6 +83,43 @@ def run(lines, out, args):
             if I.providedBy(sup) != (I in exp):
                 note += " SUPER-PROVIDEDBY-METHOD-DIFF"
                 break
+        return note
+
+    def stale_check(tok):
+        """C02 / C20 on the real objects, for the specification a key token stands for: the cached resolution order,
+        extension set, flattened view and membership against what the current __bases__ links (and iteration) give"""
+        spec = key(tok)
+        seen, stack = {}, [spec]
+        while stack:
+            x = stack.pop()
+            if id(x) not in seen:
+                seen[id(x)] = x
+                stack.extend(x.__bases__)
+        seen[id(Interface)] = Interface        # every resolution order is rooted in Interface, also without any base
+        note = ""
+        if {id(x) for x in spec.__sro__} != set(seen):
+            note += " SRO-STALE cached order has [%s], reachable through __bases__ now: [%s]" % (
+                iids(spec.__sro__), " ".join(sorted(iids(seen.values()).split(), key=int)))
+        decl = list(spec)
+        anc = {}
+        stack = list(decl)
+        while stack:
+            x = stack.pop()
+            if id(x) not in anc:
+                anc[id(x)] = x
+                stack.extend(x.__bases__)
+        for I in st["ifs"].values():
+            if bool(spec.isOrExtends(I)) != (id(I) in seen) or bool(spec.extends(I, strict=False)) != (id(I) in seen):
+                note += " IMPLIED-STALE isOrExtends(I%s) = %s" % (iids([I]), spec.isOrExtends(I))
+                break
+        if decl and {id(x) for x in spec.flattened()} | {id(Interface)} != set(anc) | {id(Interface)}:
+            note += " FLAT-STALE flattened() = [%s], iteration yields [%s] whose ancestors are [%s]" % (
+                iids(spec.flattened()), iids(decl), " ".join(sorted(iids(anc.values()).split(), key=int)))
+        for I in st["ifs"].values():
+            if (I in spec) != any(I is d for d in decl):
+                note += " IN-STALE (I%s in spec) = %s, iteration yields [%s]" % (iids([I]), I in spec, iids(decl))
+                break
+        spec = decl = anc = seen = None
         return note
 
     def build_twin():
@@ -219,6 +257,8 @@ def run(lines, out, args):
                     spec = fl = None
                     got += super_check(f[1])
                 spec = fl = None
+                if stale:
+                    got += stale_check(f[1])
             elif op == "dbg":
                 got = "dbg"
             else:
